@@ -360,8 +360,10 @@ static Boolean DecodeBitAddr(tStrComp const* pArg, Word* Erg, tEvalResult* pEval
         Num = EvalStrIntExpression(&BitPart, UInt2, &OK);
         if (OK) {
             if (!as_strncasecmp(AddrPart.str.p_str, "@H", 2)) {
+                /* the '+' of @H+mem only separates: the expression parser knows no unary plus in
+                   front of a symbol or a parenthesis */
                 Adr = EvalStrIntExpressionOffsWithResult(
-                        &AddrPart, 2, UInt4, pEvalResult);
+                        &AddrPart, (AddrPart.str.p_str[2] == '+') ? 3 : 2, UInt4, pEvalResult);
                 if (pEvalResult->OK) {
                     if (CheckACore(eCore004)) {
                         *Erg = (Num << 4) + Adr;
